@@ -24,4 +24,8 @@ theorem fmt_macro_as_modelled : fmtInitSize = 1024 ∧ fmtGrowFactor = 2 ∧
     fmtMacroText = "(s, f) do { size_t _strsize; for (_strsize = 1024; ; _strsize *= 2) { s = (char*)malloc(_strsize); if (s == NULL) { DEBUG(\"DYNAMIC_VSPRINTF(): can't allocate memory.\"); break; } va_list _arglist; va_start(_arglist, f); int _n = vsnprintf(s, _strsize, f, _arglist); va_end(_arglist); if (_n >= 0 && _n < _strsize) break; free(s); } } while(0)" :=
   ⟨by decide, by decide, rfl⟩
 
+/-- the assert() calls of this family, as reviewed: comparisons of fields only - nothing is lost when the
+    release build (-DNDEBUG) drops them; a new or changed assert() has to be reviewed here -/
+theorem asserts_side_effect_free : strAsserts = [] := by decide
+
 end Qlibc.Shapes.Str
